@@ -1,6 +1,7 @@
 """Import the real ubxlib from the repository under test, with the runtime substituted from outside:
 a stub `serial` module, stub sockets, a virtual clock, logging silenced.  Nothing in /repo is edited."""
 import logging
+import os
 import signal
 import threading
 import sys
@@ -23,7 +24,8 @@ def log_level(debug, split=None):
     mods = sorted(n for n in logging.root.manager.loggerDict if n.startswith('ubxlib.'))
     for n in mods:
         logging.getLogger(n).setLevel(logging.NOTSET)
-    _root.setLevel(logging.DEBUG if debug else logging.CRITICAL + 10)
+    # (the run in the other environment has DEBUG on throughout: no level may change what the library does)
+    _root.setLevel(logging.DEBUG if debug or os.environ.get('VERIF_LOGLEVEL') == 'DEBUG' else logging.CRITICAL + 10)
     if split is not None and mods:
         # one logger (or all but one) at WARNING, the rest inherit DEBUG from the package logger
         k = split % (2 * len(mods))
@@ -206,6 +208,36 @@ def in_thread(fn, *a):
     if 'e' in box:
         raise box['e']
     return box.get('r')
+
+
+# ---- something else happens in the middle ---------------------------------------------------------------
+def interleaved(fn, at, action):
+    """fn() with `action()` run once, at the `at`-th line executed inside the package while fn is running: what another
+    thread, a signal handler or a debugger's log point would do in the middle of an operation - made deterministic by doing it
+    from a trace function.  (Another OBJECT doing a whole operation of its own there must not show in what fn returns.)"""
+    state = {'n': 0, 'busy': False}
+
+    def local(frm, event, arg):
+        if event == 'line' and not state['busy']:
+            state['n'] += 1
+            if state['n'] == at:
+                state['busy'] = True
+                try:
+                    action()
+                except Exception:
+                    pass
+                finally:
+                    state['busy'] = False
+        return local
+
+    def tracer(frm, event, arg):
+        return local if 'ubxlib' in frm.f_code.co_filename else None
+    old = sys.gettrace()
+    sys.settrace(tracer)
+    try:
+        return fn()
+    finally:
+        sys.settrace(old)
 
 
 # ---- per-case watchdog ----------------------------------------------------------------------------
